@@ -553,27 +553,20 @@ func (x *Exec) sliceOp(st *State, fr *Frame, in *ssa.Slice) Val {
 			x.fail("slice of pointer to %T", arr)
 		}
 		if isByte(av.Elem) {
-			// byte array literal -> String term
-			var parts []T
-			allConst := true
-			var lit []byte
-			for _, el := range av.Elems {
-				t := el.(T)
-				if n, ok := isLit(t); ok {
-					lit = append(lit, byte(n))
-				} else {
-					allConst = false
-					parts = append(parts, app(SString, "str.from_code", t))
+			// byte array -> String term
+			r := byteArrString(av)
+			if lo != nil || hi != nil {
+				l := IntLit(0)
+				if lo != nil {
+					l = *lo
 				}
-			}
-			if allConst {
-				r := T{S: smtStrLit(lit), So: SString, Segs: []Seg{{Kind: "const", S: smtStrLit(lit), Lit: lit}}}
-				if lo != nil || hi != nil {
-					x.fail("partial slice of byte array literal")
+				h := IntLit(int64(len(av.Elems)))
+				if hi != nil {
+					h = *hi
 				}
-				return r
+				return app(SString, "str.substr", r, l, Sub(h, l))
 			}
-			x.fail("byte array with symbolic elements sliced")
+			return r
 		}
 		if len(bv.Path) != 0 {
 			x.fail("slice of nested array")
@@ -880,6 +873,18 @@ func fullName(fn *ssa.Function) string { return fn.String() }
 func (x *Exec) callFunc(st *State, fr *Frame, ci *callInfo, fn *ssa.Function, args []Val, k func(*State, *Frame, Val)) {
 	name := fullName(fn)
 	ci.name = name
+	if x.root != nil && x.root.AtCalls != nil && x.quiet == 0 {
+		if cls, ok := x.root.AtCalls[shortFuncName(fn)]; ok {
+			c := x.envFor(st, x.entry, st.Frames[0], nil)
+			c.frames = st.Frames
+			for _, cl := range cls {
+				if !cl.appliesTo(x.root.Prop) {
+					continue
+				}
+				x.emit(st, "assert", x.oblName("at-call:"+shortFuncName(fn)+"/"+cl.Name), cl.Line, x.evalClause(c, cl))
+			}
+		}
+	}
 	if h, ok := libModels[name]; ok {
 		h(x, st, ci, args, func(s2 *State, r Val) { k(s2, s2.top(), r) })
 		return
@@ -982,6 +987,20 @@ func (x *Exec) invoke(st *State, fr *Frame, ci *callInfo, recv Val, recvT types.
 			return
 		}
 	}
+	if ov, ok := recv.(*OpaqueV); ok && m.Name() == "Handle" && strings.Contains(ov.Tag, "Handle(") {
+		// bind: Keeper.ExternalEventProcessor is assigned only in SetStakingKeeper with an ExternalEventProcessor value
+		// (checked by the F obligation bind/ExternalEventProcessor)
+		for _, p := range x.e.prog.AllPackages() {
+			if p.Pkg != nil && strings.HasSuffix(p.Pkg.Path(), "/x/mhub2/keeper") {
+				pt := p.Type("ExternalEventProcessor").Type()
+				fn := x.e.prog.LookupMethod(pt, p.Pkg, "Handle")
+				x.e.note("bind: Keeper.ExternalEventProcessor.Handle = (ExternalEventProcessor).Handle (field written only in SetStakingKeeper)")
+				rv := x.e.freshVal(st, "processor", pt)
+				x.callFunc(st, fr, ci, fn, append([]Val{rv}, args...), k)
+				return
+			}
+		}
+	}
 	iv, ok := recv.(*IfaceV)
 	if !ok {
 		if r, ok := x.harmlessCall(st, "("+typeString(recvT)+")."+m.Name(), ci); ok {
@@ -1015,6 +1034,17 @@ func (x *Exec) invoke(st *State, fr *Frame, ci *callInfo, recv Val, recvT types.
 	}
 	x.panicIf(st, Eq(iv.Dyn, T{S: "dyn_nil", So: "Dyn"}), "nil-interface-call", ci.pos)
 	st.assume(Or(isAny...), "dynamic type is one of the implementers")
+	// if the path condition already fixes the dynamic type, do not fork again
+	for i := range cands {
+		for _, h := range st.PC {
+			if h.S == isAny[i].S {
+				cands = cands[i : i+1]
+				isAny = isAny[i : i+1]
+				goto pruned
+			}
+		}
+	}
+pruned:
 	for i, c := range cands {
 		s2 := st
 		f2 := fr
